@@ -45,7 +45,7 @@ func init() {
 			}
 			return []runner.Phase{
 				{Name: "direct", Variant: "race", Cases: n, Run: c16direct, CaseTimeout: 180 * time.Second,
-					Required: []string{"steps", "step_add", "step_remove", "step_readdress", "step_replace_id", "step_invalid_rows", "step_duplicate_row", "step_down", "step_up", "step_refresh_failure", "step_control_loss", "step_flap", "step_event_for_removed", "step_peer_address_change", "consistency_checks"}},
+					Required: []string{"steps", "step_add", "step_remove", "step_readdress", "step_replace_id", "step_invalid_rows", "step_duplicate_row", "step_down", "step_up", "step_refresh_failure", "step_control_loss", "step_flap", "step_event_for_removed", "step_peer_address_change", "step_join_during_control_outage", "step_filter_rejects_known_node", "sessions_with_host_filter", "consistency_checks"}},
 				{Name: "realtime", Variant: "race", Cases: rt, Shards: 8, Run: c16realtime, CaseTimeout: 180 * time.Second, Required: []string{"event_bursts", "refresh_overlaps"}},
 			}
 		},
@@ -63,6 +63,7 @@ type c16model struct {
 	removed []*fakenode.Node
 	oldIDs  []string
 	oldIPs  []string
+	denied  map[string]bool // connect addresses the session's HostFilter rejects at the moment (nil = no filter configured)
 }
 
 // peerAddr is the address the ring indexes a node by (its node-to-node address).
@@ -85,6 +86,12 @@ func c16id(k int) (u [16]byte) {
 	u[6] = u[6]&0x0f | 0x40
 	u[8] = u[8]&0x3f | 0x80
 	return
+}
+
+func (m *c16model) isDenied(n *fakenode.Node) bool {
+	m.mu.Lock()
+	defer m.mu.Unlock()
+	return m.denied != nil && m.denied[n.IP.String()]
 }
 
 func (m *c16model) peersView(n *fakenode.Node) []fakenode.PeerRow {
@@ -138,7 +145,7 @@ func c16quiesce(sess *gocql.Session, m *c16model) {
 		settled := !filling
 		if settled {
 			for _, n := range m.cl.Snapshot() {
-				if !m.down[n] && n.DataConnsOpen() == 0 {
+				if !m.down[n] && !m.isDenied(n) && n.DataConnsOpen() == 0 {
 					settled = false
 				}
 			}
@@ -183,6 +190,9 @@ func c16verify(sess *gocql.Session, m *c16model, pol gocql.HostSelectionPolicy) 
 	byID, byAddr, list := gocql.VerifRingSnapshot(sess)
 	want := map[string]*fakenode.Node{}
 	for _, n := range m.cl.Snapshot() {
+		if m.isDenied(n) {
+			continue // rejected by the host filter: must be absent like a node the cluster does not report
+		}
 		want[uuidString(n.HostID)] = n
 	}
 	for id, n := range want {
@@ -328,6 +338,16 @@ func c16session(c *runner.Ctx, r *rand.Rand, i int) (*gocql.Session, *c16model, 
 	cfg.PoolConfig.HostSelectionPolicy = pol
 	cfg.Timeout = 200 * time.Millisecond
 	cfg.ConnectTimeout = 200 * time.Millisecond
+	if r.Intn(3) == 0 {
+		// a host filter whose verdicts change while the session runs (a deny-list the application maintains)
+		m.denied = map[string]bool{}
+		cfg.HostFilter = gocql.HostFilterFunc(func(h *gocql.HostInfo) bool {
+			m.mu.Lock()
+			defer m.mu.Unlock()
+			return !m.denied[h.ConnectAddress().String()]
+		})
+		c.Add("sessions_with_host_filter", 1)
+	}
 	cfg.NumConns = 1 + r.Intn(2)
 	cfg.ReconnectionPolicy = &gocql.ConstantReconnectionPolicy{MaxRetries: 1, Interval: time.Millisecond}
 	sess, err := cfg.CreateSession()
@@ -374,7 +394,7 @@ func c16direct(c *runner.Ctx, i int) {
 	for s := 0; s < nsteps; s++ {
 		nodes := cl.Snapshot()
 		others := nodes[1:]
-		step := r.Intn(15)
+		step := r.Intn(18)
 		desc := ""
 		m.mu.Lock()
 		if step != 5 {
@@ -589,6 +609,64 @@ func c16direct(c *runner.Ctx, i int) {
 				if got := n.QueryCount("LIST ") - before; got > 0 {
 					c.Violation("C16:query-sent-to-down-node:after-peer-address-change", fmt.Sprintf("%d of 40 queries were sent to node %s after it was reported DOWN under its new node-to-node address %s", got, n.IP, np), map[string]interface{}{"history": append(append([]string{}, hist...), desc)})
 				}
+			}
+		case step == 14 && len(nodes) < 7:
+			// a node joins at the moment the control connection breaks: the event is lost, and only the refresh the
+			// driver does after it has re-established the control connection can tell it about the node
+			sc := cl.ControlConn()
+			if sc == nil {
+				continue
+			}
+			ip := net.IPv4(10, 0, 8, byte(m.nextIP)).To4()
+			m.nextIP++
+			n := cl.AddNode(ip, fmt.Sprintf("dc%d", r.Intn(2)), fmt.Sprintf("r%d", r.Intn(3)), []string{fmt.Sprint(int64(m.nextIP) * 1000033)})
+			n.HostID = c16id(m.nextID)
+			m.nextID++
+			sc.Close()
+			desc = "join of " + ip.String() + " while the control connection breaks (no event delivered)"
+			c.Add("step_join_during_control_outage", 1)
+			changed = true
+			for w := 0; w < 500; w++ {
+				byID, _, _ := gocql.VerifRingSnapshot(sess)
+				if _, ok := byID[uuidString(n.HostID)]; ok {
+					break
+				}
+				time.Sleep(10 * time.Millisecond)
+			}
+		case step == 15 && len(others) > 0 && m.denied != nil:
+			n := others[r.Intn(len(others))]
+			if m.down[n] || m.isDenied(n) {
+				continue
+			}
+			m.mu.Lock()
+			m.denied[n.IP.String()] = true
+			m.mu.Unlock()
+			desc = "host filter starts rejecting " + n.IP.String()
+			c.Add("step_filter_rejects_known_node", 1)
+			changed = true
+			if err := refresh(); err != nil {
+				c.Inconclusive("c16-refresh-unavailable", clipS(err.Error()))
+				return
+			}
+		case step == 16 && m.denied != nil:
+			var dn []*fakenode.Node
+			for _, n := range others {
+				if m.isDenied(n) {
+					dn = append(dn, n)
+				}
+			}
+			if len(dn) == 0 {
+				continue
+			}
+			n := dn[r.Intn(len(dn))]
+			m.mu.Lock()
+			delete(m.denied, n.IP.String())
+			m.mu.Unlock()
+			desc = "host filter accepts " + n.IP.String() + " again"
+			changed = true
+			if err := refresh(); err != nil {
+				c.Inconclusive("c16-refresh-unavailable", clipS(err.Error()))
+				return
 			}
 		case step == 8:
 			ip := net.IPv4(10, 7, 7, byte(r.Intn(200)+1)).To4()
